@@ -65,3 +65,79 @@ def needs_refresh(sess):
 def first_exchange(run, res):
     ex = run.exchanges(res)
     return ex
+
+
+def multi_setup(rng, versions, levels=None, ktypes=None, discover_p=0.5, mib_rows=None):
+    """Agent + sessions for a mixed-version run. versions: list of 'v1'|'v2c'|'v3'."""
+    eng = gen.engine_id(rng)
+    agent = {
+        "engine_id": eng,
+        "users": [],
+        "communities": [],
+        "boots": rng.choice([0, 1, 7, 2**31 - 2, rng.randrange(2**31 - 1)]),
+        "time0": rng.choice([0, 1, 1000, 2**31 - 100000, rng.randrange(2**31 - 100000)]),
+        "discovery_time": rng.choice(["zero", "real"]),
+        "mib": mib_rows if mib_rows is not None else gen.mib(rng, n=rng.randint(2, 10)),
+        "cap": rng.choice([1, 2, 5, 20]),
+    }
+    sessions = []
+    for i, v in enumerate(versions):
+        if v == "v3":
+            level = rng.choice(levels or gen.SEC_LEVELS)
+            u = gen.user(rng, level, eng, name="user%d" % i if rng.random() < 0.7 else rng.choice(["admin%d" % i, "u" * 31 + str(i)]), ktypes=ktypes)
+            agent["users"].append(u)
+            cfg = {"version": "v3", "user": u, "timeout_ns": gen.timeout_ns(rng)}
+            if rng.random() >= discover_p:
+                cfg["engine_id"] = eng
+        else:
+            cfg = community_session(rng, v)
+            if cfg["community"] not in agent["communities"]:
+                agent["communities"].append(cfg["community"])
+        if rng.random() < 0.3:
+            cfg["allow_bulk"] = rng.random() < 0.5
+        if rng.random() < 0.5:
+            cfg["max_repetitions"] = rng.choice([1, 2, 5, 10, 50])
+        sessions.append(cfg)
+    return agent, sessions
+
+
+class V3Tracker:
+    """Model of a v3 session's security state, driven only by what the history
+    shows was *accepted* (acceptance model) - used by C03 and C13."""
+
+    def __init__(self, run, s):
+        cfg = run.sess_cfg[s]
+        self.cfg = cfg
+        self.user = cfg["user"]
+        self.engine_id = bytes.fromhex(cfg["engine_id"]) if cfg.get("engine_id") else b""
+        self.deferred = not cfg.get("engine_id")
+        self.boots = 0
+        self.time = 0
+        self.known = True
+        self.accepted = 0
+
+    def cur_user(self):
+        if self.deferred:
+            return {"name": ""}
+        return self.user
+
+    def expected(self):
+        u = self.cur_user()
+        flags = (1 if u.get("auth") else 0) | (2 if u.get("priv") else 0)
+        return {"user": u["name"].encode(), "engine_id": self.engine_id, "boots": self.boots, "time": self.time, "flags": flags}
+
+    def observe(self, run, s, res, ex_index, ex):
+        """Update from the outcome of one exchange. Returns the verdict kind."""
+        kind, label, _ = oracle.exchange_verdict(run, s, ex)
+        if kind == oracle.UNKNOWN:
+            self.known = False
+            return kind
+        if kind == oracle.MATCH:
+            self.accepted += 1
+            self.boots = label["boots"]
+            self.time = label["time"]
+            if not self.engine_id:
+                self.engine_id = bytes.fromhex(label["engine_id"])
+            if self.deferred and res["op"]["op"] == "refresh" and ex_index == 0:
+                self.deferred = False
+        return kind
